@@ -11,6 +11,10 @@ for nblk, ml, tiers in ((2, 0, ("quick", "thorough")), (2, 5, ("thorough",)), (3
         name="C03.a/b certificate over an L2 history of %d blocks (metadata %d bytes), previous certificate %s: new exit root = previous tree + exits; exits = events of the range" % (nblk, ml, pname),
         harness=F + "ZZVerif_C03_Certificate", params={"NBLK": nblk, "ML": ml, "PREV": prev}, tiers=tiers, reach=["built"], time_limit_s=3000,
         bounds="%d blocks with 0..1 bridge and 0..1 claim each, all field values; previous certificate absent / settled at any block / in error over any sub-range, with or without its previous exit root" % nblk))
+for nb, ml, tiers in ((2, 3, ("quick", "thorough")), (3, 1, ("quick", "thorough")), (3, 0, ("thorough",)), (4, 2, ("thorough",))):
+    OBLIGATIONS.append(dict(
+        name="C03.d %d bridges (origin addresses may coincide, %d metadata bytes each) become exits with their own fields, their own metadata hash and the bridge's leaf hash" % (nb, ml),
+        harness=F + "ZZVerif_C03_Exits", params={"NB": nb, "ML": ml}, tiers=tiers, reach=["end"], time_limit_s=1500, unwind=400, bounds="all field values of every bridge"))
 ASSUMPTIONS = ["the L2 bridge syncer answers as proved for the real store in C01/C04 (fake in the harness)", "Keccak as uninterpreted function",
                "start exit root = empty tree (fresh network)", "a certificate spans < 2^32 blocks"]
 OUTSIDE = "L1 info proofs of imported exits (C09); size / last-block cutting (C17); FEP flow specifics"
